@@ -1,15 +1,17 @@
 #!/bin/sh
 # usage: try_mutant.sh <patch.diff> <tier> <Cxx> [Cxx...]
-# Applies the patch to /repo's working tree, runs the named checks, and ALWAYS restores /repo.
-# Prints one line per check: "<Cxx> exit=<code>" followed by the VIOLATION / INCONCLUSIVE lines.
+# Applies the patch to the repository working tree (VERIF_REPO, default /repo), runs the named checks from
+# the /verif tree this script lives in, and ALWAYS restores the repository.
 PATCH="$(readlink -f "$1")"; TIER="$2"; shift 2
-cd /repo || exit 9
-if ! git diff --quiet; then echo "refusing: /repo has uncommitted changes"; exit 9; fi
-restore() { git -C /repo checkout -- . ; }
+REPO="${VERIF_REPO:-/repo}"
+V="$(dirname "$(dirname "$(readlink -f "$0")")")"
+cd "$REPO" || exit 9
+if ! git diff --quiet; then echo "refusing: $REPO has uncommitted changes"; exit 9; fi
+restore() { git -C "$REPO" checkout -- . ; }
 trap restore EXIT INT TERM
 git apply "$PATCH" || { echo "patch does not apply"; exit 9; }
 for c in "$@"; do
-  out=$(cd /verif && VERIF_SEED=${VERIF_SEED:-1} ./check "$c" "$TIER" 2>&1)
+  out=$(cd "$V" && VERIF_SEED=${VERIF_SEED:-1} ./check "$c" "$TIER" 2>&1)
   code=$?
   echo "$c exit=$code"
   echo "$out" | grep -E '^(VIOLATION|  signature|INCONCLUSIVE|KNOWN-FINDING|FAILED)' | head -${LINES_MAX:-12}
